@@ -61,6 +61,7 @@ type caseCfg struct {
 	start, follow, batch uint64
 	hist                 string // "-" (stream only) | "fail" | head number at the time of the historical sync
 	harm                 int    // fetch countdown armed for the historical fetch (-1: none)
+	hmsg                 string // error text of that failure
 	chain                map[uint64][]rawLog
 }
 
@@ -90,7 +91,11 @@ func (c *caseCfg) resetLine() string {
 	if c.harm >= 0 {
 		harm = strconv.Itoa(c.harm)
 	}
-	return fmt.Sprintf("reset start=%d follow=%d batch=%d hist=%s harm=%s chain=%s", c.start, c.follow, c.batch, c.hist, harm, ch)
+	hmsg := c.hmsg
+	if hmsg == "" {
+		hmsg = "generic"
+	}
+	return fmt.Sprintf("reset start=%d follow=%d batch=%d hist=%s harm=%s hmsg=%s chain=%s", c.start, c.follow, c.batch, c.hist, harm, hmsg, ch)
 }
 
 func kvOf(ws []string, k string) (string, bool) {
@@ -129,6 +134,9 @@ func parseReset(line string) (*caseCfg, error) {
 		if c.harm, err = strconv.Atoi(v); err != nil {
 			return nil, err
 		}
+	}
+	if v, ok := kvOf(ws, "hmsg"); ok {
+		c.hmsg = v
 	}
 	if v, ok := kvOf(ws, "chain"); ok && v != "-" {
 		for _, bp := range strings.Split(v, ";") {
@@ -211,6 +219,7 @@ type fakeNode struct {
 	failHead  bool   // eth_blockNumber fails
 	armFetch  int    // -1: none; k: the (k+1)-th eth_getLogs from now fails
 	armMode   string // rpc | drop
+	armMsg    string // generic | toolarge | readlimit | respsize: the text of the injected RPC error
 	armSub    int    // pending eth_subscribe failures
 	notifier  *rpc.Notifier
 	subID     rpc.ID
@@ -218,6 +227,20 @@ type fakeNode struct {
 	ln        *trackLn
 	srv       *httptest.Server
 	rpcServer *rpc.Server
+}
+
+// faultText: what real execution nodes / providers answer when an eth_getLogs result is too big, or a generic failure.
+// The client code does not look at the text today; a client that does must still not lose blocks.
+func faultText(msg string) string {
+	switch msg {
+	case "toolarge":
+		return "query returned more than 10000 results"
+	case "readlimit":
+		return "websocket: read limit exceeded"
+	case "respsize":
+		return "response size exceeded"
+	}
+	return "injected eth_getLogs failure"
 }
 
 // ethAPI is registered as the "eth" namespace.
@@ -250,7 +273,7 @@ func (a *ethAPI) GetLogs(arg map[string]interface{}) ([]*ethtypes.Log, error) {
 	}
 	if n.armFetch == 0 {
 		n.armFetch = -1
-		mode := n.armMode
+		mode, msg := n.armMode, n.armMsg
 		n.mu.Unlock()
 		if mode == "drop" {
 			// the answer never arrives: the client sees the connection die. The harness first makes sure (barrier
@@ -266,7 +289,7 @@ func (a *ethAPI) GetLogs(arg map[string]interface{}) ([]*ethtypes.Log, error) {
 		} else {
 			n.events <- event{kind: "getlogs", lo: lo, hi: hi, ok: false}
 		}
-		return nil, errors.New("injected eth_getLogs failure")
+		return nil, errors.New(faultText(msg))
 	}
 	if n.armFetch > 0 {
 		n.armFetch--
@@ -606,7 +629,7 @@ func (c *caseRun) doReset() string {
 			c.node.head = hh
 			c.maxHead = hh
 		}
-		c.node.armFetch, c.node.armMode = c.cfg.harm, "rpc"
+		c.node.armFetch, c.node.armMode, c.node.armMsg = c.cfg.harm, "rpc", c.cfg.hmsg
 		last, err := syncer.SyncHistory(c.ctx, from)
 		c.node.mu.Lock()
 		c.node.armFetch, c.node.failHead = -1, false
@@ -726,11 +749,15 @@ func (c *caseRun) doOp(line string) string {
 		if !ok {
 			mode = "rpc"
 		}
+		msg, ok := kvOf(ws, "msg")
+		if !ok {
+			msg = "generic"
+		}
 		c.anyFault = true
 		c.node.mu.Lock()
-		c.node.armFetch, c.node.armMode = k, mode
+		c.node.armFetch, c.node.armMode, c.node.armMsg = k, mode, msg
 		c.node.mu.Unlock()
-		c.tags = append(c.tags, "fetcherr/"+mode)
+		c.tags = append(c.tags, "fetcherr/"+mode+"/"+msg)
 		return "armed"
 	case "subfail":
 		c.anyFault = true
@@ -779,23 +806,32 @@ func (c *caseRun) doHead(n uint64) string {
 	if ambiguous {
 		grace = time.After(400 * time.Millisecond)
 	}
+	subs := 0
+	completed := false
+	// After the head the client fetches until the target is reached; after a failed eth_getLogs it either
+	// re-subscribes (what the code does today) or goes on fetching: both are followed here, model-independently.
 loop:
 	for {
 		select {
 		case ev := <-c.node.events:
-			if ev.kind != "getlogs" {
-				continue
-			}
-			grace = nil
-			calls = append(calls, showCall(ev))
-			c.releaseDrop(ev)
-			if !ev.ok {
-				failed = true
-				break loop
-			}
-			if int64(ev.hi) >= t {
-				lastBlk = ev.lastBlk
-				break loop
+			switch ev.kind {
+			case "getlogs":
+				grace = nil
+				calls = append(calls, showCall(ev))
+				c.releaseDrop(ev)
+				if !ev.ok {
+					failed = true
+					c.anyFault = true
+				} else if int64(ev.hi) >= t {
+					lastBlk = ev.lastBlk
+					completed = true
+					break loop
+				}
+			case "subfail":
+				subs++
+			case "sub":
+				subs++
+				break loop // the client started over with a new subscription
 			}
 		case e := <-c.h.delivered:
 			c.take(e)
@@ -809,11 +845,7 @@ loop:
 			break loop
 		}
 	}
-	subs := 0
-	if failed {
-		c.anyFault = true
-		subs = c.waitRecovered(&calls)
-	} else if !c.stalled && !c.closed {
+	if completed && !c.stalled && !c.closed {
 		if c.waitDelivered(lastBlk) {
 			c.doneUpTo = t
 		}
@@ -822,7 +854,9 @@ loop:
 	if nb > 3 {
 		nb = 3
 	}
-	if failed {
+	if failed && completed {
+		c.tags = append(c.tags, "head/fetch-continued-after-failure")
+	} else if failed {
 		c.tags = append(c.tags, "head/fetch-failed")
 		c.seen = append(c.seen, fmt.Sprintf("head/fetch-failed/at:%d/subs:%d/ab:%s", nb, subs, b01(c.closed)))
 	} else {
@@ -960,11 +994,20 @@ func genCfg(r *hx.Rng, tier string) *caseCfg {
 				c.hist = strconv.FormatUint(c.start+c.follow-uint64(r.Intn(2)), 10)
 			}
 		}
-		if c.hist != "fail" && r.Chance(25) {
+		if c.hist != "fail" && r.Chance(30) {
 			c.harm = r.Intn(6)
+			c.hmsg = genMsg(r)
 		}
 	}
 	return c
+}
+
+// genMsg: about half of the RPC-error faults carry the text of a "response too large" answer (≈ 1/3 of all fetch faults)
+func genMsg(r *hx.Rng) string {
+	if r.Chance(50) {
+		return []string{"toolarge", "readlimit", "respsize"}[r.Intn(3)]
+	}
+	return "generic"
 }
 
 // nextOp picks the next op from the state the case has reached (heads are either stale or at/after every target
@@ -1003,10 +1046,10 @@ func (c *caseRun) nextOp(r *hx.Rng) string {
 		return "drop"
 	case x < 93:
 		k := r.Pick(0, 0, 0, 1, 1, 2, 3, 5)
-		if r.Chance(35) {
-			return fmt.Sprintf("fetcherr k=%d mode=drop", k)
+		if r.Chance(30) {
+			return fmt.Sprintf("fetcherr k=%d mode=drop msg=generic", k)
 		}
-		return fmt.Sprintf("fetcherr k=%d mode=rpc", k)
+		return fmt.Sprintf("fetcherr k=%d mode=rpc msg=%s", k, genMsg(r))
 	default:
 		return "subfail"
 	}
